@@ -1352,18 +1352,37 @@ def progress_query(ctx, name, kind, N, k, holder, workers, timeout_s, expect_blo
     for i, prog in enumerate(workers): graphs.append(build_thread(it, i + 1, mk(prog, i + 1), w.mem))
     Ks = [g.longest_path() + 2 for g in graphs]
     S = sum(g.step_budget() for g in graphs) + max(Ks[1:])
-    b = BMC(graphs, w.mem, S, {"allow_stutter": True, "por": False})
+    b = BMC(graphs, w.mem, S, {"stutter_when_alone": True, "por": True})
     S = b.S
     stuck = []
     for t in range(1, len(graphs)):
         kt = min(Ks[t], S)
-        others_done = z3.And([b.is_kind(u, S - kt, "done") for u in range(len(graphs)) if u != t])
+        others_done = z3.And([z3.Or(b.is_kind(u, S - kt, "done"), b.is_kind(u, S - kt, "panic")) for u in range(len(graphs)) if u != t])
         stuck.append(z3.And(others_done, z3.Not(b.is_kind(t, S, "done")), z3.Not(b.is_kind(t, S, "panic"))))
     meta = {"threads": ["0:%s (returns, then stays away)" % "+".join(holder)] + ["%d:%s" % (i + 1, "+".join(p)) for i, p in enumerate(workers)],
             "oracle": "every operation finishes within a bounded number of its OWN steps once all other threads have returned (no spinning on a returned / suspended thread)",
             "bounds": "%s, BUFFER_SIZE=%d, pre-filled %d, origin any u32, steps<=%d, solo-run bounds %s" % (kind, N, k, S, Ks[1:])}
-    violation = [z3.Or(z3.Or(stuck), b.any_panic(), b.err[S])]
-    witness = [b.all_done()]
+    # "a rejected send changes nothing": when every thread has returned, the ring is quiescent and holds exactly the pre-filled
+    # events that were not received plus the accepted ones -- each once (raw rings; the zero-copy wrappers are covered by C01/C13)
+    consistent = z3.BoolVal(True); cons = []
+    if kind in ("AtomicMove", "FullSyncMove") and "reserve" not in holder:
+        progs_all = [holder] + list(workers)
+        sent_vals = [(t, j, w.inputs["v%d_%d" % (t, j)]) for t, prog in enumerate(progs_all) for j, op in enumerate(prog) if op == "send"]
+        allv = [v for (_, _, v) in sent_vals] + pre
+        cons = [allv[i] != allv[j2] for i in range(len(allv)) for j2 in range(i + 1, len(allv))] + [z3.And(z3.UGE(v, BV(32, 0x1000)), z3.ULT(v, BV(32, POISON))) for v in allv]
+        res_by_t = {t: b.results(t, lambda j, v, prog=prog: (ex_publish_movable(v) if prog[j] == "send" else ex_option_u32(v))) for t, prog in enumerate(progs_all)}
+        accepted = [(res_by_t[t][j]["ok"], v) for (t, j, v) in sent_vals] + [(z3.BoolVal(True), v) for v in pre]
+        recvd = [(res_by_t[t][j]["some"], res_by_t[t][j]["val"]) for t, prog in enumerate(progs_all) for j, op in enumerate(prog) if op == "recv"]
+        maxlen = min(N, len(accepted))
+        pend, quiet = ring_content(w, b, "q", (), kind, N, S, maxlen)
+        R = recvd + pend
+        cs = [quiet]
+        for some, val in R: cs.append(z3.Implies(some, z3.Or([z3.And(ok, val == v) for ok, v in accepted])))
+        for ok, v in accepted: cs.append(z3.Sum([z3.If(z3.And(some, val == v), BV(8, 1), BV(8, 0)) for some, val in R]) == z3.If(ok, BV(8, 1), BV(8, 0)))
+        consistent = z3.And(cs)
+        meta["oracle"] += "; and, once all threads returned, the ring is quiescent and holds exactly the accepted-and-not-yet-received events, each once (a rejected send changed nothing)"
+    violation = cons + [z3.Or(z3.Or(stuck), b.any_panic(), b.err[S], z3.And(b.all_done(), z3.Not(consistent)))]
+    witness = cons + [b.all_done()]
     meta["functions"] = sorted(set(x.split(">::")[-1] + " @" + (re.search(r"impl at (src/[^:]*)", x).group(1) if "impl at" in x else "") for x in it.functions_used))
     meta["intrinsics"] = sorted(it.intrinsics_used)
     rec, model = solve(name, b, violation, witness, timeout_s, ctx.workdir, meta)
@@ -1372,6 +1391,7 @@ def progress_query(ctx, name, kind, N, k, holder, workers, timeout_s, expect_blo
         rec["trace"] = b.decode_schedule(model)
         inp = {nm: model.eval(v, model_completion=True).as_long() for nm, v in w.inputs.items()}
         rec["inputs"] = inp
+        rec["model_inconsistent_final_state"] = str(model.eval(z3.And(b.all_done(), z3.Not(consistent)), model_completion=True))
         which = [t + 1 for t, c in enumerate(stuck) if z3.is_true(model.eval(c, model_completion=True))]
         rec["model_stuck_threads"] = which
         def conv(prog, t): return [("send:%d" % inp.get("v%d_%d" % (t, j), 7)) if op == "send" else op for j, op in enumerate(prog)]
@@ -1380,12 +1400,14 @@ def progress_query(ctx, name, kind, N, k, holder, workers, timeout_s, expect_blo
         origins = [inp["origin"], inp.get("origin2", inp["origin"])]
         if kind in ("AtomicZeroCopy", "FullSyncZeroCopy"): origins = [inp.get("origin2", 0), inp["origin"]]
         segs = replay.segments_from_trace(rec["trace"])
+        acct = replay.fifo_symptom("exactly_once", N, prefill_vals) if kind in ("AtomicMove", "FullSyncMove") and "reserve" not in holder else (lambda h: None)
         def symptom(h):
             if h["panics"]: return "panic: " + h["panics"][0]
             if h["stuck"]: return "thread(s) %s never return: they spin although every other thread has returned" % h["stuck"]
             if h["timeout"]: return "the native run does not terminate (a thread spins forever)"
-            return None
-        found, why, tried = replay.search(kind, N, origins, prefill_vals, progs, [], segs, symptom, max_runs=60)
+            return acct(h)
+        drain_after = ["drain"] * N if kind in ("AtomicMove", "FullSyncMove") and "reserve" not in holder else []
+        found, why, tried = replay.search(kind, N, origins, prefill_vals, progs, drain_after, segs, symptom, max_runs=60)
         rec["native_runs"] = tried
         if found: rec.update(verdict="violation", symptom=found["symptom"], replayed=True, native_history=found["history"].get("events", []), native_segments=found["segments"])
         else: rec.update(verdict="inconclusive", why="model counterexample (stuck threads %s) did not reproduce natively: %s" % (which, why))
